@@ -261,6 +261,33 @@ func (r *Runner) Step(o Op) Reply {
 			r.tr.mu.Unlock()
 		}
 		return Reply{Kind: "st"}
+	case o.Proc == "mount":
+		// the MOUNT program of the same server (the reference has nothing to say about it: the question is only
+		// whether every request gets an answer); o.Name is the path, o.Mode selects the procedure
+		func() {
+			defer func() {
+				if e := recover(); e != nil {
+					panic(fmt.Sprintf("MOUNT procedure %d with path %q: %v", o.Mode, o.Name, e))
+				}
+			}()
+			switch o.Mode % 6 {
+			case 0:
+				r.srv.MOUNTPROC3_MNT(nfstypes.Dirpath3(o.Name))
+			case 1:
+				r.srv.MOUNTPROC3_UMNT(nfstypes.Dirpath3(o.Name))
+			case 2:
+				r.srv.MOUNTPROC3_UMNTALL()
+			case 3:
+				r.srv.MOUNTPROC3_DUMP()
+			case 4:
+				r.srv.MOUNTPROC3_EXPORT()
+			default:
+				r.srv.MOUNTPROC3_NULL()
+			}
+		}()
+		fmt.Fprintf(r.w, "C %d null\nR st 0\n", o.Id)
+		r.checkpoint(r.autoIdle)
+		return Reply{Kind: "st"}
 	case o.Proc == "null":
 		r.srv.NFSPROC3_NULL()
 		fmt.Fprintf(r.w, "C %d null\nR st 0\n", o.Id)
